@@ -118,6 +118,7 @@ class LayeredDriver:
 def split_checks(rng, n_uniform=12, n_exp=6):
     """metamorphic part: split media reproduce the unsplit tracers' solutions"""
     out = 0
+    reuse = None
     for i in range(n_uniform):
         n = rng.choice([1.3, 1.5, 1.78])
         D = rng.choice([300.0, 600.0])
@@ -132,7 +133,13 @@ def split_checks(rng, n_uniform=12, n_exp=6):
         class U1(UniformRayTracer):
             max_reflections = 1
         ref = U1(src, dst, whole).solutions
-        lay = LayeredIce([UniformIce(n, valid_range=(cut, 0)), UniformIce(n, valid_range=(-D, cut))], index_above=1.0, index_below=None)
+        new_layers = [UniformIce(n, valid_range=(cut, 0)), UniformIce(n, valid_range=(-D, cut))]
+        if i % 2 and reuse is not None:
+            lay = reuse                         # the same LayeredIce object with a different split
+            lay.layers = new_layers
+        else:
+            lay = LayeredIce(new_layers, index_above=1.0, index_below=None)
+            reuse = lay
         sols = LayeredRayTracer(src, dst, lay).solutions
         where = 'uniform n=%g split at %g: src=%s dst=%s' % (n, cut, list(src), list(dst))
         for r in ref:
